@@ -269,7 +269,17 @@ func C06(r *simkit.Run) {
 				next++
 				v := fmt.Sprintf("%014d", 20240101000000+next)
 				what = "WritePlan " + v
-				werr = planner.WritePlan(&migrate.Plan{Version: v, Name: fmt.Sprintf("p%d", next), Changes: []*migrate.Change{{Cmd: fmt.Sprintf("CREATE TABLE p%d (c int)", next), Comment: "create"}, {Cmd: fmt.Sprintf("INSERT INTO p%d VALUES (1)", next)}}})
+				name := fmt.Sprintf("p%d", next)
+				// A file name is free text: it may hold what a format string or a sum-file line gives a meaning to.
+				switch t.Weighted("plan-name", 8, 1, 1) {
+				case 1:
+					name += "_50%"
+					r.Probe("file-name-with-a-percent-sign")
+				case 2:
+					name = "h1:" + name
+					r.Probe("file-name-reads-like-a-sum-entry")
+				}
+				werr = planner.WritePlan(&migrate.Plan{Version: v, Name: name, Changes: []*migrate.Change{{Cmd: fmt.Sprintf("CREATE TABLE p%d (c int)", next), Comment: "create"}, {Cmd: fmt.Sprintf("INSERT INTO p%d VALUES (1)", next)}}})
 			case 1:
 				next++
 				v := fmt.Sprintf("%014d", 20240101000000+next)
